@@ -9,5 +9,5 @@ CONSTANTS
   Fmts = {"MOTO", "INTEL", "INTEL16", "INTEL32", "MOS", "TEK", "ATMEL", "C", "DSK"}
   Devs = {}
   Full = TRUE
-INVARIANTS InvLinesValid InvVerdict InvDecodeEquiv InvEmit InvLineLen InvBank InvWholeUnits InvGroupReset
+INVARIANTS InvLinesValid InvVerdict InvDecodeEquiv InvEmit InvLineLen InvBank InvWholeUnits InvGroupReset InvArgOffsets
 CHECK_DEADLOCK FALSE
